@@ -166,9 +166,9 @@ _T = {
     "C14": ("Theorems toStr32_spec / toStr64_spec: for every value < 2^w, every base argument, signedness and buffer length the model of UInt{32,64}ToStrBaseSign stores exactly the leading `len` characters of the canonical text, returns their number, writes the NUL iff a byte remains, and no step divides by zero, wraps or indexes outside the digit table; canon_value: the canonical text has no leading zero, only digits of the base and denotes the value. Stated over the divisor constants regenerated from utils.c. The model is tied to the C code by differential testing, which is what limits the assurance.",
             "Lean kernel + axioms propext/Classical.choice/Quot.sound; translator for the switch(base) constants and digit alphabet; model-to-code correspondence is testing (boundary and stratified values x bases x buffer lengths 0..70 under ASan)",
             "Lean 4 theorem (induction on the digit loop) over generated constants + differential correspondence"),
-    "C10": ("Theorems queue_refines / queue_owns_texts: for every capacity >= 1 and every history of pushes (any code, text, declared length, allocation failure), pops, SYST:ERR?, clears and counts, the model of fifo.c + error.c produces exactly the observations of an abstract bounded FIFO with -350 overflow marker, every live allocation is referenced by exactly one entry, nothing is freed twice, and an empty queue holds no allocation. Ring invariant and abstraction lemmas per fifo operation. Real malloc/free is observed by ASan and a link-time allocation counter, not proved.",
-            "Lean kernel + standard axioms; hand-written model of fifo.c/error.c tied by exhaustive short histories (capacities 1..4) and random long ones in configurations A and C with injected strndup failures",
-            "Lean 4 refinement proof (ring buffer -> list) with ghost allocator + differential correspondence"),
+    "C10": ("Theorems queue_refines / queue_owns_texts: for every capacity >= 1 and every history of pushes (any code, text, declared length, allocation failure), pops, SYST:ERR?, clears and counts, the model of fifo.c + error.c produces exactly the observations of an abstract bounded FIFO with -350 overflow marker, every live allocation is referenced by exactly one entry, nothing is freed twice, and an empty queue holds no allocation. Ring invariant and abstraction lemmas per fifo operation. Real malloc/free is observed by ASan and a link-time allocation counter, not proved. The ring-buffer functions of fifo.c are additionally TRANSLATED from the C text on every run (translate/c2lean.py, clang AST -> Gen/FifoC.lean) and proved to refine the hand model on every well-formed state (c_fifo_* theorems; well-formedness holds after fifo_init and is kept by every function), so the queue theorems hold of the C text as it is now, not only of the hand model.",
+            "Lean kernel + standard axioms; fifo.c: clang-14 typed AST + translate/c2lean.py (Int model of int16 arithmetic with wrap on store, C99 remainder) + refinement proofs; error.c: hand-written model tied by exhaustive short histories (capacities 1..4), random long ones and capacities 100..1000 in configurations A and C with injected strndup failures",
+            "Lean 4 refinement proof (ring buffer -> list) with ghost allocator; C-to-Lean translation of fifo.c with machine-checked equivalence to the model; differential correspondence"),
     "C11": ("Theorem coherent_reachable: every state reachable from initialisation by any history of event/condition/enable/SRE writes (all 16-bit values), error push/pop/clear, *CLS and clearing queries satisfies the five status-byte equivalences; proved as an inductive invariant of the table-driven model of SCPI_RegSet instantiated with the register tables regenerated from ieee488.c.",
             "Lean kernel + standard axioms; translator for register/group tables and bit constants; correspondence = lock-step comparison of every transition of exhaustive short and random long histories",
             "Lean 4 inductive invariant over BitVec 16 state machine with generated tables + differential correspondence"),
@@ -199,7 +199,7 @@ _T["C06"] = ("Theorem framing: for every context (any table, any scripts, any st
 _T["C17"] = ("Theorems header_spec (every length below 10^9: '#', digit count 1..9, decimal length; fits the 12-byte scratch), block_spec, block_stream (every split of the data into chunks summing to the announced length: data unchanged, counted as one item at completion and not before), over_length_refused (-310, nothing written, remaining length unchanged), array_binary for every element size and BOTH host byte orders (elements big-endian for NORMAL, little-endian for SWAPPED; an empty array still counts as one item), array_bad_size.",
             "Lean kernel + standard axioms; translator for the block-header scratch size and conversion call; model tied to parser.c/utils.c by scripted differential testing with an independent streaming encoder as judge; the host of the harness is little-endian (the big-endian case is covered by the theorem only)",
             "Lean 4 theorems over the result-writer model + differential correspondence")
-_T["C02"] = ("Theorem dispatch_correct: for every context, every command table whose patterns belong to the grammar and satisfy C03's side condition (overlapping and duplicate patterns included), every script assignment and every well-formed message in the input buffer, the handler invocations and -113 errors produced by SCPI_Parse are, in message order and one per unit that has a header, the handler of the FIRST entry whose pattern language contains the unit's effective header (entered with exactly that header), or else one -113 whose text contains the header as written; the effective header follows the statement's rule (effective_rule), with the in-place composition proved to denote it. Builds on C13 (unit_spec) and C03 (match_iff_language).",
+_T["C02"] = ("Theorem dispatch_correct: for every context, every command table whose patterns belong to the grammar and satisfy C03's side condition (overlapping and duplicate patterns included), every script assignment and every well-formed message in the input buffer, the handler invocations and -113 errors produced by SCPI_Parse are, in message order and one per unit that has a header, the handler of the FIRST entry whose pattern language contains the unit's effective header (entered with exactly that header), or else one -113 whose text contains the header as written; the effective header follows the statement's rule (effective_rule), with the in-place composition proved to denote it. Builds on C13 (unit_spec) and C03 (match_iff_language). handler_sees_tag / handler_pattern_test / api_match: inside the handler SCPI_CmdTag delivers the tag of the matched entry and SCPI_IsCmd / SCPI_Match answer membership of a header text in the pattern language.",
             "Lean kernel + standard axioms; context model tied to parser.c/utils.c by scripted differential testing; handler traces judged against Spec/Message.lean recomputed from the raw message (hook reports each message)",
             "Lean 4 theorem (induction over units with a buffer-geometry invariant) + differential correspondence")
 _T["C05"] = ("Theorems: missing_parameter (-109 for a mandatory, silence and absence for an optional one), reader_failure_has_error (no typed reader fails without queuing an error unless optional and absent), reader_success_is_silent, reader_by_token (the outcome of every reader on the token SCPI_Parameter delivers is the property's table: -104 / -138 / -131 / -224), parameter_delivers_next_item (comma discipline -103, next element of the data specification delivered whole with its extent, -151 otherwise), unit_accounting (-200 iff the handler failed without an error of its own, -108 iff unread data remains and nothing was queued). Hypotheses: choice names contain no NUL / '#'; the -350 overflow marker is not counted as an error of the unit.",
